@@ -45,8 +45,11 @@ type c20Req struct {
 	Method string `json:"method"`
 	CType  string `json:"ctype"`
 	Body   string `json:"body"`
-	Query  string `json:"query"`
-	Dec    c20Dec `json:"dec"`
+	// Pre: the level is changed directly (SetLevel, or the text path when the level is a named one) just before this request;
+	// the endpoint must report and act on the level in force, however it got there
+	Pre   *int   `json:"pre,omitempty"`
+	Query string `json:"query"`
+	Dec   c20Dec `json:"dec"`
 }
 
 type c20Op struct {
@@ -290,6 +293,10 @@ func c20Gen(r *Rand, tier string, emit func(op any)) {
 				}
 			}
 			reqs[j] = c20Req{Method: m, CType: ct, Body: hx(body), Query: query, Dec: refDecode(m, ct, body, query)}
+			if r.Chance(1, 4) {
+				pre := Pick(r, []int{-1, 0, 1, 2, 3, 4, 5})
+				reqs[j].Pre = &pre
+			}
 		}
 		emit(c20Op{K: "http", Init: Pick(r, []int{-1, 0, 1, 2, 3, 4, 5}), Reqs: reqs})
 	}
@@ -417,6 +424,15 @@ func c20Exec(raw json.RawMessage) Result {
 		shape := ""
 		changed := false
 		for i, rq := range op.Reqs {
+			if rq.Pre != nil {
+				for _, al := range []zap.AtomicLevel{lvl, silenced, deaf} {
+					if *rq.Pre >= -1 && *rq.Pre <= 5 && i%2 == 1 {
+						must(al.UnmarshalText([]byte(zapcore.Level(*rq.Pre).String())))
+					} else {
+						al.SetLevel(zapcore.Level(*rq.Pre))
+					}
+				}
+			}
 			before := lvl.Level()
 			body := unhx(rq.Body)
 			target := "/log/level"
